@@ -138,9 +138,20 @@ pub fn sorted(mut v: Vec<MQuad>) -> Vec<MQuad> {
 }
 
 fn is_index_full<E: std::error::Error + 'static>(e: &E) -> bool {
-    (e as &dyn std::error::Error)
-        .downcast_ref::<TermIndexFullError>()
-        .is_some()
+    let mut cur: Option<&(dyn std::error::Error + 'static)> = Some(e);
+    let mut depth = 0;
+    while let Some(c) = cur {
+        if c.downcast_ref::<TermIndexFullError>().is_some() {
+            return true;
+        }
+        depth += 1;
+        if depth > 8 {
+            break;
+        }
+        cur = c.source();
+    }
+    // wrappers that do not expose their source (GraphAsDatasetMutationError::Graph)
+    e.to_string().contains("TermIndex can not contain more terms") || format!("{e:?}").contains("TermIndexFullError")
 }
 
 // ---------------------------------------------------------------------------------------------
@@ -1271,7 +1282,104 @@ fn run_history(ctx: &mut Ctx, views: bool) -> Verdict {
     Ok(())
 }
 
+
+// ---------------------------------------------------------------------------------------------
+// the real 16-bit boundary: the shipped `small::*` types hold at most 65 535 terms
+
+fn boundary_store<D>(ctx: &mut Ctx, name: &str, mut d: D, with_graph_name: bool) -> Verdict
+where
+    D: MutableDataset,
+{
+    let o = |n: &str| format!("{n}/{name}");
+    let p = MTerm::iri("http://ex.org/p").to_simple();
+    let obj = MTerm::iri("http://ex.org/o").to_simple();
+    let g = MTerm::iri("http://ex.org/g").to_simple();
+    let gname = if with_graph_name { Some(&g) } else { None };
+    let cap = u16::MAX as usize; // index MAX is reserved for the default graph
+    let fixed_terms = if with_graph_name { 3 } else { 2 };
+    // leave `slack` free slots, drawn from the tape
+    let slack = ctx.tape.below(3);
+    let n = cap - fixed_terms - slack;
+    let subj = |i: usize| MTerm::Iri(format!("http://ex.org/s/{i}")).to_simple();
+    for i in 0..n {
+        let r = d.insert(&subj(i), &p, &obj, gname);
+        ensure!(matches!(r, Ok(true)), o("boundary_fill"), "{name}: insertion #{i} of {n} below the 16-bit boundary returned {:?}", r.map_err(|e| e.to_string()));
+    }
+    ctx.probe("u16_boundary_filled");
+    ensure!(d.quads().count() == n, o("boundary_count"), "{name}: {} quads after {n} insertions", d.quads().count());
+    // a quad needing slack+1 new terms: the first `slack` get indexed, the next one must fail
+    let fresh = |k: usize| MTerm::Iri(format!("http://ex.org/fresh/{k}")).to_simple();
+    let (a, b, c) = (fresh(0), fresh(1), fresh(2));
+    let r = d.insert(&a, &b, &c, gname);
+    match r {
+        Err(e) => {
+            ensure!(is_index_full(&e), o("boundary_error"), "{name}: expected TermIndexFullError at the boundary, got {e}");
+            ctx.fault("term_index_full_at_u16_boundary");
+            ctx.fault_in_op = true;
+        }
+        Ok(f) => {
+            return Err(Violation::new(
+                o("index_full_not_reported"),
+                format!("{name}: inserting a quad with 3 new terms with {slack} free slots of 65535 returned Ok({f})"),
+            ));
+        }
+    }
+    // the failed insertion left the content unchanged
+    ensure!(d.quads().count() == n, o("boundary_atomicity"), "{name}: {} quads after a failed insertion, expected {n}", d.quads().count());
+    ensure!(
+        !d.contains(&a, &b, &c, gname).unwrap_or(true),
+        o("boundary_atomicity"),
+        "{name}: the quad whose insertion failed is reported as contained"
+    );
+    // every position of a 3-new-terms quad: terms indexed before the failing one stay usable
+    if slack >= 1 {
+        let r = d.insert(&a, &p, &obj, gname);
+        ensure!(matches!(r, Ok(true)), o("boundary_reuse"), "{name}: a term indexed by a failed insertion could not be reused: {:?}", r.map_err(|e| e.to_string()));
+        ctx.probe("u16_boundary_partial_terms_reused");
+        let r = d.remove(&a, &p, &obj, gname);
+        ensure!(matches!(r, Ok(true)), o("boundary_reuse"), "{name}: remove after reuse returned {:?}", r.map_err(|e| e.to_string()));
+    }
+    // existing terms in new combinations still work, removal works, queries still right
+    let r = d.insert(&subj(0), &p, &subj(1), gname);
+    ensure!(matches!(r, Ok(true)), o("boundary_existing_terms"), "{name}: inserting a new quad made of indexed terms at the boundary returned {:?}", r.map_err(|e| e.to_string()));
+    let k = ctx.tape.below(n);
+    let hits = d.quads_matching([&subj(k)], sophia_api::term::matcher::Any, sophia_api::term::matcher::Any, sophia_api::term::matcher::Any).count();
+    ensure!(hits == if k == 0 { 2 } else { 1 }, o("boundary_query"), "{name}: pattern query for subject #{k} returned {hits} quads");
+    let r = d.remove(&subj(k), &p, &obj, gname);
+    ensure!(matches!(r, Ok(true)), o("boundary_remove"), "{name}: remove of quad #{k} returned {:?}", r.map_err(|e| e.to_string()));
+    ensure!(d.quads().count() == n, o("boundary_count"), "{name}: {} quads at the end, expected {n}", d.quads().count());
+    // the last index issued is 65534; no term may have received the reserved index
+    let last = d.quads_matching([&subj(n - 1)], sophia_api::term::matcher::Any, sophia_api::term::matcher::Any, sophia_api::term::matcher::Any).count();
+    ensure!(last == 1, o("boundary_query"), "{name}: the last term below the boundary is not found ({last} hits)");
+    if !with_graph_name {
+        let named = d.quads_matching(sophia_api::term::matcher::Any, sophia_api::term::matcher::Any, sophia_api::term::matcher::Any, sophia_api::term::matcher::Not([None::<&ST>])).count();
+        ensure!(named == 0, o("boundary_default_graph"), "{name}: {named} quads appear in a named graph although all were inserted in the default graph (reserved index issued to a term?)");
+    }
+    Ok(())
+}
+
+fn run_boundary(ctx: &mut Ctx) -> Verdict {
+    ctx.sig("u16_boundary");
+    ctx.ops += 8;
+    let which = ctx.tape.below(6);
+    ev!(ctx, "u16 boundary run, store {which}");
+    ctx.sample(|| format!("u16 boundary run on store {which}: fill the 16-bit term index, then fail / reuse / query / remove at the boundary"));
+    simcore::driver::set_death_note("u16 boundary run");
+    match which {
+        0 => boundary_store(ctx, "small::FastDataset", sophia_inmem::dataset::small::FastDataset::new(), false),
+        1 => boundary_store(ctx, "small::LightDataset", sophia_inmem::dataset::small::LightDataset::new(), false),
+        2 => boundary_store(ctx, "small::FastDataset(named)", sophia_inmem::dataset::small::FastDataset::new(), true),
+        3 => boundary_store(ctx, "small::LightDataset(named)", sophia_inmem::dataset::small::LightDataset::new(), true),
+        4 => boundary_store(ctx, "small::FastGraph", sophia_api::dataset::adapter::GraphAsDataset::new(sophia_inmem::graph::small::FastGraph::new()), false),
+        _ => boundary_store(ctx, "small::LightGraph", sophia_api::dataset::adapter::GraphAsDataset::new(sophia_inmem::graph::small::LightGraph::new()), false),
+    }
+}
+
 fn run_c01(ctx: &mut Ctx) -> Verdict {
+    // about 1 run in 1500 drives the real 65 535-term boundary of the shipped small::* types
+    if ctx.tape.draw(1500) == 1499 {
+        return run_boundary(ctx);
+    }
     run_history(ctx, false)
 }
 
@@ -1324,6 +1432,25 @@ fn main() {
         thorough_extra: None,
         warmup: Some(warmup),
     };
+    // `simstore miri <seed> <count>`: run C10 histories directly on the main thread (no worker
+    // processes, no adversarial allocator, no hash-seed control) so that Miri can interpret
+    // them and report undefined behaviour itself.
+    let args: Vec<String> = std::env::args().collect();
+    if args.get(1).map(String::as_str) == Some("miri") {
+        let seed: u64 = args.get(2).and_then(|s| s.parse().ok()).unwrap_or(1);
+        let count: u64 = args.get(3).and_then(|s| s.parse().ok()).unwrap_or(4);
+        let mut bad = 0;
+        for i in 0..count {
+            let mut ctx = Ctx::new(simcore::Tape::record(simcore::rng::mix(seed, 0xC10, i)), false);
+            let _ = ctx.tape.draw(1 << 32);
+            if let Err(v) = c10::run_c10_plain(&mut ctx) {
+                println!("run {i}: violation [{}] {}", v.oracle, v.msg);
+                bad += 1;
+            }
+        }
+        println!("miri batch done: {count} histories, {bad} violations");
+        std::process::exit(if bad > 0 { 1 } else { 0 });
+    }
     let sc = vec![
         base("C01", 0xC01, run_c01),
         base("C11", 0xC11, run_c11),
